@@ -834,31 +834,32 @@ def case_after_interruption(ctx, cls, rseed, count):
                ("PebblingFormula(pyramid 4)", lambda: g.PebblingFormula(dag_pyramid(4), formula_class=K)),
                ("StoneFormula(pyramid 2, 3)", lambda: g.StoneFormula(dag_pyramid(2), 3, formula_class=K)),
                ("CPLSFormula(3,4,4)", lambda: g.CPLSFormula(3, 4, 4, formula_class=K))]
-    for _ in range(count):
-        vname, fn = r.choice(victims)
-        with _InterruptAt(1 << 60) as dry:
-            try:
-                fn()
-            except Exception:       # noqa: BLE001
-                continue
-        if dry.n < 3:
-            continue
-        k = r.randint(1, dry.n)
+    for it in range(count):
+        # no rehearsal of the same call (it would leave behind whatever the call leaves behind): the line to stop at is
+        # drawn log-uniformly, and a call that ends before it is simply not interrupted; sizes grow from round to round
+        size = 200 + 41 * it + r.randint(0, 30)
+        vname, fn = r.choice(victims + [("PythagoreanTriples(%d)" % size, lambda size=size: g.PythagoreanTriples(size, formula_class=K)),
+                                        ("VanDerWaerden(%d,3,4)" % (20 + it), lambda it=it: g.VanDerWaerden(20 + it, 3, 4, formula_class=K))] * 2)
         fired = False
-        try:
-            with _InterruptAt(k):
-                fn()
-        except KeyboardInterrupt:
-            fired = True
-        except Exception:           # noqa: BLE001
-            pass
+        for attempt in range(3):
+            k = int(2 ** r.uniform(1, 17 - 3 * attempt))
+            try:
+                with _InterruptAt(k):
+                    fn()
+            except KeyboardInterrupt:
+                fired = True
+                break
+            except Exception:           # noqa: BLE001
+                break
         if not fired:
+            ctx.count("family_calls_that_ended_before_the_interruption")
             continue
         ctx.count("family_calls_interrupted")
-        which = r.choice(["ptn", "ptn", "vdw", "op", "ram", "cpls"])
+        same = {"Pyth": "ptn", "VanD": "vdw", "Rams": "ram", "Orde": "op", "CPLS": "cpls"}.get(vname[:4])
+        which = same if same and r.random() < 0.7 else r.choice(["ptn", "ptn", "vdw", "op", "ram", "cpls"])
         ctx.count("checks_after_an_interrupted_family_call")
         if which == "ptn":
-            case_ptn(ctx, cls, sorted(r.sample(range(3, 40), 4)) + [r.choice((60, 100, 150))])
+            case_ptn(ctx, cls, sorted(r.sample(range(3, 40), 3)) + [r.choice((60, 100, 150)), r.choice((200, 300, 320))])
         elif which == "vdw":
             case_vdw(ctx, cls, r.randint(4, 8), 2, [[3, 3], [2, 3], [3, 4]])
         elif which == "op":
